@@ -429,6 +429,19 @@ func runFaultSuite(rep *Report, tier string, seed int64, prop string) {
 				}
 			}
 		}
+		// the usual clean-up pattern `if err := remote.Call(…); err != nil { cancel() }`: the link's context is
+		// cancelled BECAUSE the link failed — Link must still return the failure, not the later cancellation
+		ftc := 60
+		if tier == "thorough" {
+			ftc = 1500
+		}
+		for i := 0; i < ftc; i++ {
+			rep.Evaluations++
+			if msg := c16FailThenCancel(i); msg != "" {
+				rep.addViolation("property", "C16:fail-then-cancel", msg, map[string]any{"suite": "C16-fail-then-cancel", "note": "a call is in flight, the response read fails, the application cancels the link context as soon as the call returns its error"})
+				break
+			}
+		}
 		n := 300
 		if tier == "thorough" {
 			n = 6000
@@ -578,4 +591,58 @@ func c16DoneCtxCall(api, how string) string {
 		return fmt.Sprintf("after a call with a done context the link no longer works: %+v", r)
 	}
 	return ""
+}
+
+// c16FailThenCancel: see the call site.
+func c16FailThenCancel(i int) string {
+	plan := NewFaultPlan()
+	p, err := NewPair(jsonRaw(), PairOpts{API: []string{"message", "stream"}[i%2], Plan: plan})
+	if err != nil {
+		return ""
+	}
+	ra, _, _ := p.A.AnyRemote()
+	callDone := make(chan struct{})
+	go func() {
+		defer close(callDone)
+		if _, err := ra.Gate(context.Background(), 900); err != nil {
+			p.A.Cancel() // the application reacts to the failure
+		}
+	}()
+	// the call is in flight (its handler is parked on the gate)
+	waitFor(func() bool {
+		for _, inv := range p.B.Svc.Invocations() {
+			if inv.Method == "Gate" {
+				return true
+			}
+		}
+		return false
+	})
+	plan.FailNext("A.readRes")
+	plan.FailNext("A.decode")
+	go ra.Echo(context.Background(), 1, "provoke a response") // makes A read
+	msg := ""
+	select {
+	case e := <-p.A.LinkErr:
+		var inj *injectedError
+		if !errors.As(e, &inj) {
+			msg = fmt.Sprintf("the link ended through an injected read failure and the application then cancelled its context: Link returned %q instead of the failure that ended it", e)
+		}
+	case <-time.After(watchdog):
+		msg = "Link did not return after a read failure"
+	}
+	p.B.Svc.OpenGate(900)
+	p.A.Cancel()
+	p.B.Cancel()
+	p.CloseTransport()
+	select {
+	case <-callDone:
+	case <-time.After(watchdog):
+	}
+	fin := make(chan struct{})
+	go func() { p.wg.Wait(); close(fin) }()
+	select {
+	case <-fin:
+	case <-time.After(watchdog):
+	}
+	return msg
 }
